@@ -223,6 +223,16 @@ func (w *World) DoPut(t *rapid.T, a mm.Addr) {
 		w.Seen["lock-on-inherited-tombstone"] = true
 		return // admission of a LOCK on a target that only inherits a tombstone is not specified
 	}
+	// a live lock on a tombstoned object (reachable only through a forced mark +
+	// revival of the LOCK itself): whether the lock hides the tombstone is not specified
+	w.M = before.Clone()
+	q := w.M.Quirks
+	w.M.Quirks.LockOverridesTombstone = !q.LockOverridesTombstone
+	if w.M.PutWith(s, w.Epoch, got) == got {
+		w.M.Quirks = q
+		w.Seen["lock-vs-tombstone-unspecified"] = true
+		return
+	}
 	w.M = before
 	if w.OnAdmission != nil && w.OnAdmission(w, s, want, got) {
 		if again := w.M.Put(s, w.Epoch); again == got {
